@@ -243,10 +243,10 @@ func c08ltMisc(m dsl.Matcher) {
 `
 
 var ltRuleSets = []ruleSet{
-	{"loadtime-types", []string{"lttypes.go"}, map[string]string{"lttypes.go": rulesLtTypes()}, true},
-	{"loadtime-misc", []string{"ltmisc.go"}, map[string]string{"ltmisc.go": rulesLtMisc}, true},
+	{name: "loadtime-types", files: []string{"lttypes.go"}, text: map[string]string{"lttypes.go": rulesLtTypes()}, allZoo: true},
+	{name: "loadtime-misc", files: []string{"ltmisc.go"}, text: map[string]string{"ltmisc.go": rulesLtMisc}, allZoo: true, freshBase: true},
 	// both files on one engine (merged rule sets: cloned gogrep patterns, shared filters)
-	{"loadtime-both", []string{"lttypes.go", "ltmisc.go"}, map[string]string{"lttypes.go": rulesLtTypes(), "ltmisc.go": rulesLtMisc}, true},
+	{name: "loadtime-both", files: []string{"lttypes.go", "ltmisc.go"}, text: map[string]string{"lttypes.go": rulesLtTypes(), "ltmisc.go": rulesLtMisc}, allZoo: true},
 }
 
 func init() { ruleSets = append(ruleSets, ltRuleSets...) }
